@@ -24,7 +24,20 @@ import tempfile
 # file_end  : open(path, 'rb') positioned at EOF (a caller that has already read the file)
 # file_small: open(path, 'rb', buffering=16): buffer boundaries every 16 bytes
 # mmap      : mmap.mmap(fileno, 0, access=ACCESS_READ) (empty data: falls back to bytesio, mmap refuses length 0)
-KINDS = ('bytesio', 'file', 'file_warm', 'file_end', 'file_small', 'mmap')
+# gzip      : gzip.open(path.gz, 'rb'): a seekable stream of the logical bytes whose fileno() is the descriptor of
+#             the COMPRESSED file (data over 256 KiB: falls back to 'file', backward seeks re-inflate from the start)
+# decoy_fd  : an in-memory stream whose fileno() is a real descriptor of an unrelated 64-byte file — what gzip,
+#             bz2, lzma and wrapper streams look like to code that goes to the descriptor behind the stream's back
+KINDS = ('bytesio', 'file', 'file_warm', 'file_end', 'file_small', 'mmap', 'gzip', 'decoy_fd')
+
+
+class _DecoyFdIO(io.BytesIO):
+    def __init__(self, data, fobj):
+        io.BytesIO.__init__(self, data)
+        self._decoy = fobj
+
+    def fileno(self):
+        return self._decoy.fileno()
 
 
 class Streams:
@@ -54,6 +67,20 @@ class Streams:
         data = bytes(data)
         if kind == 'bytesio' or (kind == 'mmap' and not data):
             return io.BytesIO(data)
+        if kind == 'gzip' and len(data) > 256 * 1024:
+            kind = 'file'
+        if kind == 'decoy_fd':
+            f = open(self.path_of(b'\xa5' * 64), 'rb')
+            self._open.append(f)
+            return _DecoyFdIO(data, f)
+        if kind == 'gzip':
+            import gzip
+            path = self.path_of(b'')
+            with gzip.open(path, 'wb', compresslevel=1) as g:
+                g.write(data)
+            st = gzip.open(path, 'rb')
+            self._open.append(st)
+            return st
         path = self.path_of(data)
         if kind == 'file_small':
             st = open(path, 'rb', buffering=16)
